@@ -200,7 +200,7 @@ def scratch_dir(prefix='verif-'):
 
 def run(spec, cfg, workers=None, timeout=1200, simulate=None, depth=None, seed=None, dump=None,
         coverage=False, env=None, extra=(), deadlock=None, cwd=None, jvm=(), heap='8g', dfs=False,
-        expect_violation=False):
+        expect_violation=False, _retry=False):
     """Run TLC on spec (module name or path, relative to spec/) with cfg.  Raises TLCError on
     machinery failures; property-ish outcomes (invariant violated, deadlock) are returned."""
     cwd = cwd or SPEC_DIR
@@ -281,6 +281,13 @@ def run(spec, cfg, workers=None, timeout=1200, simulate=None, depth=None, seed=N
     r.ok = (p.returncode == 0 and r.violated is None and
             ('No error has been found' in out or 'Finished in' in out))
     if not r.ok and r.violated is None:
+        if 'TLC threw an unexpected exception' in out and w != '1' and not simulate and not _retry:
+            # TLC 1.8 occasionally fails with "Attempted to select nonexistent field ... from the record"
+            # (for a field that is there) when several workers evaluate the same un-normalised record
+            # value: a tool race, not a property of the spec.  One retry with a single worker.
+            return run(spec, cfg, workers=1, timeout=timeout, simulate=simulate, depth=depth, seed=seed, dump=dump,
+                       coverage=coverage, env=env, extra=extra, deadlock=deadlock, cwd=cwd, jvm=jvm, heap=heap, dfs=dfs,
+                       expect_violation=expect_violation, _retry=True)
         raise TLCError('TLC failed (rc=%s): %s\n%s' % (p.returncode, r.cmd, out[-4000:]))
     return r
 
